@@ -64,6 +64,14 @@ def run_codec(ctx) -> RuleResult:
                 if not ok:
                     result.add(Finding("R-CODEC", module, qual, node, "exponents are encoded with '-=' instead of '+'"))
                 continue
+            if isinstance(node, ast.Call) and ctx.dotted(module, node.func) in ("numpy.subtract", "numpy.add") \
+                    and len(node.args) == 2 and not node.keywords:
+                # numpy.subtract(a, b) / numpy.add(a, b) spelled as a call: same as the operator
+                node2 = ast.BinOp(left=node.args[0], op=ast.Sub() if ctx.dotted(module, node.func) == "numpy.subtract" else ast.Add(),
+                                  right=node.args[1])
+                ast.copy_location(node2, node)
+                node2._parent = getattr(node, "_parent", None)
+                node = node2
             if not isinstance(node, ast.BinOp) or not isinstance(node.op, (ast.Add, ast.Sub)):
                 continue
             owner = node
@@ -473,6 +481,26 @@ def run_header(ctx) -> RuleResult:
                     used_ok = True
                 if fname == "shape" and cname.endswith("reshape") and len(call.args) > 1 and var in U(call.args[1]):
                     used_ok = True
+        if not used_ok:
+            # provenance form (values carried through records / inlined methods):  ...groups()[idx]  reaches the use
+            needle = f".groups()[{idx}]"
+            from .common import step_exprs as _step_exprs
+
+            for path in ctx.paths(lmod, lfunc, max_iter=1):
+                for step in path:
+                    for raw in _step_exprs(step):
+                        for call in calls_in(raw):
+                            cname = ctx.dotted(lmod, call.func, ctx.locals_of(lfunc)) or U(call.func)
+                            if fname == "names" and kwarg(call, "names") is not None \
+                                    and needle in U(strip_tags(step.expand(kwarg(call, "names")))):
+                                used_ok = True
+                            if fname == "keys" and cname == "numpy.dtype" and needle in U(strip_tags(step.expand(call))):
+                                used_ok = True
+                            if fname == "shape" and cname.endswith("reshape") and len(call.args) > 1 \
+                                    and needle in U(strip_tags(step.expand(call.args[1]))):
+                                used_ok = True
+                if used_ok:
+                    break
         result.ob(f"group {idx} (field '{fname}') is consumed as {fname}", used_ok, lmod.loc(assign) if assign else lmod.relpath, "")
         if not used_ok:
             result.add(Finding("R-HEADER", lmod, "loadtxt", assign or lfunc,
@@ -644,7 +672,8 @@ def run_values(ctx) -> RuleResult:
         contiguous = False
         for node, pol in last.fact_items():
             text = U(node)
-            if "C_CONTIGUOUS" in text and pol is True:
+            if ("C_CONTIGUOUS" in text or ".flags.c_contiguous" in text or ".flags.contiguous" in text
+                    or "flags['CONTIGUOUS']" in text or "flags['C']" in text) and pol is True:
                 contiguous = True
         ok = has_strides or contiguous
         result.ob(f"raw buffer re-wrapped only for C-contiguous self [{' / '.join(trace)}]", ok, module.loc(last.orig), "")
@@ -761,6 +790,37 @@ def run_terms(ctx) -> RuleResult:
                 f"the coefficient dtype, so polynomial(p.todict(), names=p.names) comes back with numpy's default dtype",
                 construct="todict: coefficient converted"))
     if t == 0:
-        raise AnalysisError("ndpoly.todict: dict comprehension not found")
+        # accumulate form:  out = {}; for ... over all terms: out[tuple(<exponent row>)] = <coefficient>
+        for path in ctx.paths(module, func, max_iter=1):
+            iters = [i for i, st in enumerate(path) if st.kind == "iter" and isinstance(st.node, ast.For)]
+            if not iters:
+                continue
+            for idx in range(iters[0], len(path)):
+                step = path[idx]
+                if step.kind != "stmt" or not isinstance(step.node, ast.Assign) or not isinstance(step.node.targets[0], ast.Subscript):
+                    continue
+                key = strip_tags(step.expand(step.node.targets[0].slice))
+                value = strip_tags(step.expand(step.node.value))
+                ktext, vtext = U(key), U(value)
+                if "πself.exponents" not in ktext:
+                    continue
+                t += 1
+                filtered = any(st.kind == "assume" for st in path[iters[0]:idx])
+                result.ob("todict keeps every term (no filter)", not filtered, module.loc(step.orig), ktext[:80])
+                if filtered:
+                    result.add(Finding(
+                        "R-TERMS", module, "ndpoly.todict", step.node,
+                        "todict stores a term only under a condition: the dictionary of an identically-zero polynomial is empty "
+                        "and cannot regenerate its shape, dtype or value", construct="todict: terms filtered"))
+                plain = vtext in ("Σelem(πself.coefficients)",) or (
+                    vtext.startswith("πself.coefficients[") and "Σindex(" in vtext)
+                result.ob("todict stores the coefficient array itself", plain, module.loc(step.orig), vtext[:60])
+                if not plain:
+                    result.add(Finding(
+                        "R-TERMS", module, "ndpoly.todict", step.node,
+                        f"todict stores '{vtext[:60]}' instead of the coefficient array: converted values lose the coefficient "
+                        f"dtype", construct="todict: coefficient converted"))
+    if t == 0:
+        raise AnalysisError("ndpoly.todict: neither a dict comprehension nor an accumulate loop over the terms found")
     result.floor = 4
     return result
